@@ -90,6 +90,7 @@ import (
 	"strconv"
 	"strings"
 	"time"
+	"verif/harness/rdr"
 
 	"github.com/sqlc-dev/doubleclick/ast"
 	"github.com/sqlc-dev/doubleclick/lexer"
@@ -197,7 +198,7 @@ func parseOne(sql string, timeout time.Duration) (stmts []ast.Statement, err err
 	}()
 	ctx, cancel := context.WithTimeout(context.Background(), timeout)
 	defer cancel()
-	stmts, err = parser.Parse(ctx, strings.NewReader(sql))
+	stmts, err = parser.Parse(ctx, rdr.For(sql))
 	return
 }
 
